@@ -206,6 +206,9 @@ def run(ctx):
         if name is None:
             continue
         k, o = world.objs[name]
+        if kind == "spectrum" and rng.random() < 0.6:
+            o.start_frequency = rng.choice([5, 0, 2.5, -3, 1e6, True])
+            o.frequency_increment = rng.choice([2, 1, 0.25, 10**6])
         if kind == "digital" and rng.random() < 0.7:
             _ = [s.name for s in o.signals]       # populate the name cache
             if rng.random() < 0.6:
@@ -242,7 +245,7 @@ def run(ctx):
             if k == "digital":
                 extra = (tuple(s.name for s in x.signals),)
             if k == "spectrum":
-                extra = (x.start_frequency, x.frequency_increment)
+                extra = (repr(x.start_frequency), repr(x.frequency_increment))      # value and type (5 is not 5.0 for an observer)
             t = getattr(x, "_timing", None)
             return (world.snap(k, x).split(" ", 3)[3], None if t is None else tobs(t), type(getattr(x, "_scale_mode", None)).__name__) + extra
 
